@@ -907,6 +907,9 @@ class Evaluator:
             f = base.cls.resolve(name)
             if f is not None:
                 if f.is_property:
+                    if base.root and self.stack.count(f) == 0 and len(self.stack) < self.max_depth:
+                        # a property of the object being analysed is just a parameterless helper: inline its getter
+                        return self.call_function(f, base.cls, base, [], {}, self.src(fr, node) if node is not None and fr is not None else ())
                     return Sym("attr", (base, name))
                 return FuncRef(f, base, base.cls)
             inst_kinds = {k for k in self.p.attr_kinds(base.cls).get(name, set()) if not k.startswith("class:")}
